@@ -36,6 +36,11 @@ def histories(tier, seed):
     # several new names at once, in an order that differs from any sorted order
     hs.append([dm.Op('DNew', [], [], []), dm.Op('OSetObject', 0, 2, [5, 3, 9, 4, 7]), dm.Op('OSetProperty', 0, 9, [8, 0, 6, 1]),
                dm.Op('OAddObject', 0, 6, [7, 5, 4, 3]), dm.Op('OAddProperty', 0, 4, [8, 2, 1, 0])])
+    # several empty rows / columns removed at once (the returned names have an order)
+    hs.append([dm.Op('DNew', [6, 2, 8, 0, 1], [9, 3, 7, 5], [[False] * 4] * 5), dm.Op('OSetItem', 0, 8, 7, True),
+               dm.Op('ORemoveEmptyObjects', 0), dm.Op('ORemoveEmptyProperties', 0), dm.Op('OAddObject', 0, 6, []), dm.Op('OAddObject', 0, 2, []),
+               dm.Op('OAddProperty', 0, 9, []), dm.Op('OAddProperty', 0, 5, []), dm.Op('OAddProperty', 0, 3, []),
+               dm.Op('ORemoveEmptyProperties', 0), dm.Op('ORemoveEmptyObjects', 0)])
     hs.append([dm.Op('DNew', [0, 1, 2], [3, 4, 5], [[True, False, True], [False, True, False], [True, True, False]]),
                dm.Op('DNew', [2, 1, 0, 6], [5, 4, 3, 7], [[False, True, False, True]] * 4),
                dm.Op('OUnionUpdate', 0, 1, False), dm.Op('OIntersectionUpdate', 0, 1, False), dm.Op('DUnion', 0, 1, False),
@@ -91,6 +96,10 @@ def context_section(tier, seed):
             cs = [lat[i] for i in order]
             sec[f'upset_union{order}'] = [x.index for x in lat.upset_union(cs)]
             sec[f'downset_union{order}'] = [x.index for x in lat.downset_union(cs)]
+        # experimental API, not covered by a theorem, but its result must not depend on the process either
+        for order in (seeds[:3], sorted(set(seeds))[:4], [0, n - 1], [n // 2, n - 1, 0]):
+            cs = [lat[i] for i in order]
+            sec[f'upset_generalization{order}'] = err(lambda: [x.index for x in lat.upset_generalization(cs)])
         sec['relations'] = err(lambda: [str(c.relations(include_unary=True)), repr(list(c.relations()))])
         sec['definition'] = err(lambda: repr(c.definition()))
         sec['graphviz'] = err(lambda: mask(lat.graphviz().source))
@@ -123,6 +132,10 @@ def f5_section():
 
 def main():
     tier, seed = sys.argv[1], int(sys.argv[2])
+    # perturb object addresses differently in every process (id()-based hashes must not matter either)
+    hs = int(os.environ.get('PYTHONHASHSEED', '0') or 0)
+    ballast = [object() for _ in range(997 * (hs + 1))] + [bytearray(64 * (hs + 3)) for _ in range(31 * (hs + 1))]
+    del ballast[::3]
     terms, messages = definition_section(tier, seed)
     out = {'definition terms': terms, 'definition error messages': messages, 'contexts': context_section(tier, seed), 'F5': f5_section()}
     sys.stdout.write(json.dumps(out, ensure_ascii=False))
